@@ -789,6 +789,17 @@ def c05_l7(ctx):
             if is_value_altering_call(cal):
                 n += 1
                 yield bad("C05-L7", "%s:%s" % (short(f.impl_self_adt or f.root or f.norm), cal.split("::")[-1]) + ("#%d" % n if n > 1 else ""), at(f, t["span"]["line"]), "%s in an encoder alters the value being written: distinct PDUs get the same encoding (decode(encode(v)) != v, and the CRC check over the re-encoding accepts a corrupted PDU)" % cal)
+    # ... nor overwrites a field of the value it was given before writing it out
+    for f in fns:
+        if f.kind == "Closure":
+            continue
+        for b in f.live_blocks():
+            for st in f.blocks[b]["stmts"]:
+                if st["k"] == "assign" and st["place"]["local"] == 1 and st["place"]["proj"] and not any(e_.get("k") == "deref" for e_ in st["place"]["proj"][:1]) and f.arg_count >= 1:
+                    names1 = [vn for vn, l_, pj in f.var_places if l_ == 1 and not pj]
+                    if names1 and names1[0] == "self":
+                        n += 1
+                        yield bad("C05-L7", "%s:writes-%s" % (short(f.impl_self_adt or f.norm), f.place_str(st["place"])) + ("#%d" % n if n > 1 else ""), at(f, st["span"]["line"]), "the encoder overwrites %s of the value it encodes: what is written is not what was given (a PDU decoded with the other value re-encodes to the received octets, so the CRC comparison accepts it)" % f.place_str(st["place"]))
     yield ok("C05-L7", "encoders:verbatim", "%d encode functions" % len(fns), "%d value-altering calls" % n, nontrivial=(n == 0))
 
 
